@@ -456,23 +456,22 @@ theorem resolveImports_keeps_import_of_sheet_with_kept_import :
           (fun t => (t.map Rule.tag, importHrefs t)) = some ([1, 2], [cps "a.css"]) := by
   decide +kernel
 
-/-! ### the remaining known findings of the flattening, machine-checked on the model (each also fails on the
-implementation) -/
+/-! ### the findings of the flattening, machine-checked on the model -/
 
-/-- C19-unavailable-refetched: an unavailable target is fetched again when the kept @import is added to the
-flattened sheet — since the fix with the fetcher of the sheet that is resolved, not with the default fetcher -/
-theorem resolveImports_refetches_unavailable :
+/-- was C19-unavailable-refetched (fixed by ca7960c): an unavailable target is NOT fetched again when the kept @import is
+added to the flattened sheet: the URL that was tried is remembered -/
+theorem resolveImports_does_not_refetch_unavailable :
     (resolveImports [] .user (cps "http://h/m.css")
-      [.imp (cps "x.css") mediaAll false [] []]).log = [(.user, cps "http://h/x.css")] := by
+      [.imp (cps "x.css") mediaAll false (cps "http://h/x.css") []]).log = [] := by
   decide +kernel
 
-/-- … and at parse time an unavailable target is fetched twice -/
-theorem parse_fetches_unavailable_twice :
+/-- … and at parse time an unavailable target is fetched once -/
+theorem parse_fetches_unavailable_once :
     (parseSheet [] (cps "http://h/m.css") [notLoaded (cps "x.css") mediaAll]).log
-      = [(.user, cps "http://h/x.css"), (.user, cps "http://h/x.css")] := by decide +kernel
+      = [(.user, cps "http://h/x.css")] := by decide +kernel
 
-/-- C19-kept-import-hoisted: `@import "a.css"; @import "b.css" print;` with `b.css` = `@page{}` (cannot be wrapped):
-the kept @import of b is put in front of the rules of a, which it used to follow in cascade order.
+/-- C19-kept-import-hoisted (still open): `@import "a.css"; @import "b.css" print;` with `b.css` = `@page{}` (cannot be
+wrapped): the kept @import of b is put in front of the rules of a, which it used to follow in cascade order.
 kinds: 1 = comment, 2 = @import, 4 = style rule -/
 theorem kept_import_is_hoisted_over_merged_rules :
     (resolveImports [] .user (cps "http://h/m.css")
@@ -480,21 +479,29 @@ theorem kept_import_is_hoisted_over_merged_rules :
        .imp (cps "b.css") (cps "print") true (cps "http://h/b.css") [.page [] [] []]]).okMap (·.map Rule.tag)
       = some [1, 2, 4, 1] := by decide +kernel
 
-/-- C19-kept-import-not-rebased: `@import "css/a.css";` with `css/a.css` = `@import "b.css" print;` and
-`css/b.css` = `@page{}`: the kept `@import "b.css"` arrives in the flattened sheet with its href unchanged, where it
-means `b.css` next to the main sheet, not `css/b.css` -/
-theorem kept_nested_import_keeps_its_href :
+/-- was C19-kept-import-not-rebased (fixed by e8a4f78): `@import "css/a.css";` with `css/a.css` = `@import "b.css" print;` and
+`css/b.css` = `@page{}`: the kept `@import "b.css"` arrives in the flattened sheet as `@import "css/b.css"`, which from
+the main sheet means the sheet it meant before -/
+theorem kept_nested_import_is_rebased :
     (resolveImports [] .user (cps "http://h/m.css")
       [.imp (cps "css/a.css") mediaAll true (cps "http://h/css/a.css")
         [.imp (cps "b.css") (cps "print") true (cps "http://h/css/b.css") [.page [] [] []]]]).okMap importHrefs
-      = some [cps "b.css"] ∧
-    urljoin (cps "http://h/m.css") (cps "b.css") ≠ urljoin (cps "http://h/css/a.css") (cps "b.css") := by
+      = some [cps "css/b.css"] ∧
+    urljoin (cps "http://h/m.css") (cps "css/b.css") = urljoin (cps "http://h/css/a.css") (cps "b.css") := by
   constructor
   · decide +kernel
   · decide
 end
 
-/-! ## T19.3 with kept imports — `resolveImports` is the specification `flatSpec`
+/- PARKED (re-sync of 2026-09-30, /repo ca7960c + e8a4f78). The section below — `resolveImports` is the specification
+`flatSpec`, with its corollaries (groups in document order, what a group is, both orders kept, the body is the depth-first
+traversal, nothing is fetched when everything was found) — was proved for the model BEFORE the two repairs. `addRule` /
+`resolveRule` and `keep1` / `cascRule` now contain `reload` and `rebaseImps` (Model/Urls.lean); the proofs in
+Lemmas/UrlsKept.lean have to thread these steps and are parked with this section. The statements are kept here verbatim as
+the obligations to re-prove; until then the clause rests on the correspondences `resolve` / `flatspec` (model against the
+implementation on generated import trees) and on the meaning oracle. Not claimed in MANIFEST.json.
+
+/ -! ## T19.3 with kept imports — `resolveImports` is the specification `flatSpec`
 
 `Flat` above has no place for an @import that stays. The specification `flatSpec` (`Model/Urls.lean`, Part 4) has:
 the *groups* of the rules of a sheet in document order (`cascRules`) —
@@ -511,82 +518,82 @@ that the code computes exactly `flatSpec` wherever `flatSpec` has a value; it ha
 with an @namespace rule (their place in the target is C15's kernel) and where the model of `urljoin` has none, and it
 raises where re-basing raises. The differences between `flatSpec` and the full statement are then visible in the
 specification itself: `hoist` (C19-kept-import-hoisted), `replRules` leaving @import rules alone
-(C19-kept-import-not-rebased), `keep1` fetching (C19-unavailable-refetched). -/
+(C19-kept-import-not-rebased), `keep1` fetching (C19-unavailable-refetched). - /
 
-/-- T19.3 [W1, generalised to kept imports]: wherever the specification has a value — trees with unavailable
+/ -- T19.3 [W1, generalised to kept imports]: wherever the specification has a value — trees with unavailable
 targets, with groups that cannot be wrapped, at any depth, any file system and fetcher — `resolveImports` returns
 exactly that sheet and makes exactly the fetcher calls of the specification.
-Still `_partial`: trees with @namespace rules are outside (the specification has no value there). -/
+Still `_partial`: trees with @namespace rules are outside (the specification has no value there). - /
 theorem resolveImports_flat_kept_partial (vfs : Vfs) (who : Who) (href : Str) (sheet out : Sheet)
     (h : (flatSpec vfs who href sheet).val = .ok out) :
     resolveImports vfs who href sheet = flatSpec vfs who href sheet :=
   resolveImports_eq_flatSpec vfs who href sheet out h
 
-/-- T19.3 [W1, every tree without @namespace rules]: for EVERY loaded import tree in which no sheet holds an
+/ -- T19.3 [W1, every tree without @namespace rules]: for EVERY loaded import tree in which no sheet holds an
 @namespace rule — any nesting, any mix of available, unavailable, recursive, wrappable and unwrappable targets, any
 file system and fetcher — `resolveImports` IS the specification: the same sheet or the same exception (a URL that
-cannot be re-based), and the same fetcher calls in the same order. No hypothesis that the specification has a value. -/
+cannot be re-based), and the same fetcher calls in the same order. No hypothesis that the specification has a value. - /
 theorem resolveImports_is_flatSpec (vfs : Vfs) (who : Who) (href : Str) (sheet : Sheet)
     (h : noNsL sheet = true) : resolveImports vfs who href sheet = flatSpec vfs who href sheet :=
   resolveImports_eq_flatSpec_full vfs who href sheet h
 
-/-- … and so does every intermediate call with a target that already holds rules -/
+/ -- … and so does every intermediate call with a target that already holds rules - /
 theorem resolveRules_is_groups_added (vfs : Vfs) (who : Who) (href : Str) (target sheet : Sheet)
     (h : noNsL sheet = true) :
     resolveRules vfs who href target sheet = (cascRules vfs who href sheet).mapOk (run target) :=
   resolveRules_casc_full vfs who sheet href target h
 
-/-- the groups consist of @imports (the kept ones) and of rules that `add` appends: no @charset, no @namespace -/
+/ -- the groups consist of @imports (the kept ones) and of rules that `add` appends: no @charset, no @namespace - /
 theorem groups_hold_imports_and_appended_rules (vfs : Vfs) (who : Who) (href : Str) (sheet c : Sheet)
     (h : (cascRules vfs who href sheet).val = .ok c) : ∀ r ∈ c, isImp r = true ∨ appended r = true := by
   intro r hr
   have := cascRules_kind vfs who sheet href c h r hr
   simpa [okKind] using this
 
-/-- … into an existing target: the groups are added one rule after the other (`run` = `target.add` in a loop) -/
+/ -- … into an existing target: the groups are added one rule after the other (`run` = `target.add` in a loop) - /
 theorem resolveRules_adds_groups (vfs : Vfs) (who : Who) (href : Str) (target sheet c : Sheet)
     (h : (cascRules vfs who href sheet).val = .ok c) :
     resolveRules vfs who href target sheet = ⟨.ok (run target c), (cascRules vfs who href sheet).log⟩ :=
   resolveRules_casc vfs who sheet href target c h
 
-/-- adding rules one by one to an empty sheet is hoisting: the positions `CSSStyleSheet.insertRule(inOrder=True)`
-computes (after the last @import / after a leading comment / at the top) amount to "kept @imports first" -/
+/ -- adding rules one by one to an empty sheet is hoisting: the positions `CSSStyleSheet.insertRule(inOrder=True)`
+computes (after the last @import / after a leading comment / at the top) amount to "kept @imports first" - /
 theorem adding_in_order_is_hoisting (c : List Rule) : run [] c = hoist c := run_nil_eq_hoist c
 
-/-- `resolveImports(sheet, target)` with a target that holds rules already: for every target of the shape
+/ -- `resolveImports(sheet, target)` with a target that holds rules already: for every target of the shape
 rules-without-@import ++ @imports ++ rules-without-@import in which the next @import goes right behind the @imports
 (`Shape`; every sheet made by `resolveImports` has it, and so has e.g. a sheet with one leading comment), adding the
-groups puts the kept @imports behind the @imports of the target and everything else at the end, each in their order -/
+groups puts the kept @imports behind the @imports of the target and everything else at the end, each in their order - /
 theorem adding_to_a_target_is_hoisting (pre K post c : List Rule) (s : Shape pre K post) :
     run (pre ++ K ++ post) c = pre ++ (K ++ c.filter isImp) ++ (post ++ c.filter (fun r => !isImp r)) :=
   run_shape c pre K post s
 
-/-- non-vacuity: a target that holds a comment, an @import and a style rule has the shape -/
+/ -- non-vacuity: a target that holds a comment, an @import and a style rule has the shape - /
 example : Shape [.comment []] [.imp [] [] false [] []] [.style [] []] :=
   ⟨by simp [isImp], by simp [isImp], by simp [isImp], by simp [impIndex, afterLast, isImp], by simp⟩
 
-/-- flattening into the result of an earlier flattening is hoisting the concatenated groups -/
+/ -- flattening into the result of an earlier flattening is hoisting the concatenated groups - /
 theorem flattening_into_a_flattened_sheet (c d : List Rule) : run (hoist c) d = hoist (c ++ d) := by
   rw [← run_nil_eq_hoist, ← run_append, run_nil_eq_hoist]
 
-/-- the specification of the last round is the special case without kept imports: on a tree described by `Flat`
+/ -- the specification of the last round is the special case without kept imports: on a tree described by `Flat`
 the groups are the flattened sheet, nothing is hoisted and nothing fetched — so `resolveImports_flat_partial` is an
-instance of `resolveImports_flat_kept_partial` -/
+instance of `resolveImports_flat_kept_partial` - /
 theorem flatSpec_generalises_flat (vfs : Vfs) (who : Who) (href : Str) (sheet out : Sheet) (h : Flat sheet out) :
     flatSpec vfs who href sheet = ⟨.ok out, []⟩ := by
   simp only [flatSpec, cascRules_flat vfs who h href]
   rw [hoist_noImp out (fun r hr => isPlain_notImp r (h.plain_out r hr))]
 
-/-- cascade order including kept imports: hoisting keeps the kept @imports in their order, the other rules in
-their order, loses and invents nothing — for every list of groups -/
+/ -- cascade order including kept imports: hoisting keeps the kept @imports in their order, the other rules in
+their order, loses and invents nothing — for every list of groups - /
 theorem hoist_keeps_both_orders (c : List Rule) :
     (hoist c).filter isImp = c.filter isImp ∧
     (hoist c).filter (fun r => !isImp r) = c.filter (fun r => !isImp r) ∧
     (hoist c).length = c.length ∧ ∀ r, r ∈ hoist c ↔ r ∈ c :=
   ⟨hoist_imports c, hoist_others c, hoist_length c, hoist_mem c⟩
 
-/-- … so in the flattened sheet the rules that are not @imports stand in the cascade order of the groups, and so do
-the kept @imports -/
+/ -- … so in the flattened sheet the rules that are not @imports stand in the cascade order of the groups, and so do
+the kept @imports - /
 theorem flattened_keeps_both_orders (vfs : Vfs) (who : Who) (href : Str) (sheet c : Sheet)
     (h : (cascRules vfs who href sheet).val = .ok c) :
     ∃ out, (resolveImports vfs who href sheet).val = .ok out ∧
@@ -595,12 +602,12 @@ theorem flattened_keeps_both_orders (vfs : Vfs) (who : Who) (href : Str) (sheet 
   have : (flatSpec vfs who href sheet).val = .ok (hoist c) := by simp [flatSpec, h]
   rw [resolveImports_flat_kept_partial vfs who href sheet _ this, this]
 
-/-- cascade order at EVERY depth: wherever the specification has a value, the rules of the flattened sheet that
+/ -- cascade order at EVERY depth: wherever the specification has a value, the rules of the flattened sheet that
 are not @imports are exactly `bodyRules sheet` — the depth-first traversal of the import tree defined without file
 system, fetcher, target, insertion position or hoisting: own rules in document order; for an @import without media
 the marker comment and the re-based body of its target; with media one @media rule around it, or only the marker
 comment when the target cannot be wrapped — and an @import is left in the flattened sheet exactly when `bodyRules`
-says one has to be kept. With `resolveImports_flat_kept_partial` this is a statement about `resolveImports`. -/
+says one has to be kept. With `resolveImports_flat_kept_partial` this is a statement about `resolveImports`. - /
 theorem flattened_body_is_depth_first (vfs : Vfs) (who : Who) (href : Str) (sheet out : Sheet)
     (h : (flatSpec vfs who href sheet).val = .ok out) :
     bodyRules sheet = .ok (out.filter notImp, out.any isImp) ∧
@@ -616,33 +623,33 @@ theorem flattened_body_is_depth_first (vfs : Vfs) (who : Who) (href : Str) (shee
       rw [this, e1, any_isImp_hoist]
   · rw [resolveImports_flat_kept_partial vfs who href sheet out h, h]
 
-/-- where the kept @imports go (the general form of C19-kept-import-hoisted): either the groups start with a rule
+/ -- where the kept @imports go (the general form of C19-kept-import-hoisted): either the groups start with a rule
 that is not an @import and stays in front — a comment — and all kept @imports follow it, or the kept @imports come
-first; everything else behind them -/
+first; everything else behind them - /
 theorem kept_imports_are_hoisted (c : List Rule) :
     (∃ x rest, c = x :: rest ∧ isImp x = false ∧
       hoist c = x :: (rest.filter isImp ++ rest.filter (fun r => !isImp r))) ∨
     hoist c = c.filter isImp ++ c.filter (fun r => !isImp r) := hoist_cases c
 
-/-- the region of C19-kept-import-hoisted, exactly: hoisting leaves the groups as they are if and only if the kept
+/ -- the region of C19-kept-import-hoisted, exactly: hoisting leaves the groups as they are if and only if the kept
 @imports already stand in front of everything else, behind at most one leading comment (`hoisted`, decidable) — so
 the order of the flattened sheet differs from cascade order exactly when some rule other than one leading comment
-precedes a kept @import in the groups -/
+precedes a kept @import in the groups - /
 theorem hoisting_is_identity_iff_imports_first (c : List Rule) : hoist c = c ↔ hoisted c = true :=
   hoist_eq_self_iff c
 
-/-- without a kept @import nothing is moved -/
+/ -- without a kept @import nothing is moved - /
 theorem nothing_hoisted_without_kept_imports (c : List Rule) (h : ∀ r ∈ c, isImp r = false) : hoist c = c :=
   hoist_noImp c h
 
-/-- the groups of a sheet are the groups of its rules in document order -/
+/ -- the groups of a sheet are the groups of its rules in document order - /
 theorem groups_in_document_order (vfs : Vfs) (who : Who) (th : Str) (r : Rule) (rs : List Rule) (c d : List Rule)
     (l1 l2 : FLog) (h1 : cascRule vfs who th r = ⟨.ok c, l1⟩) (h2 : cascRules vfs who th rs = ⟨.ok d, l2⟩) :
     cascRules vfs who th (r :: rs) = ⟨.ok (c ++ d), l1 ++ l2⟩ := by
   simp [cascRules, h1, h2]
 
-/-- the group of an @import with media whose target cannot be wrapped (it still holds a kept @import, or an @page,
-@font-face, @media … rule): the marker comment and the @import as it is, and nothing of its target -/
+/ -- the group of an @import with media whose target cannot be wrapped (it still holds a kept @import, or an @page,
+@font-face, @media … rule): the marker comment and the @import as it is, and nothing of its target - /
 theorem group_of_unwrappable_import (vfs : Vfs) (who : Who) (th href media ihref : Str) (sheet ci : Sheet) (l : FLog)
     (rebased : Sheet × List Str)
     (hi : cascRules vfs who ihref sheet = ⟨.ok ci, l⟩)
@@ -652,7 +659,7 @@ theorem group_of_unwrappable_import (vfs : Vfs) (who : Who) (th href media ihref
       = ⟨.ok [.comment (startComment href), .imp href media true ihref sheet], l⟩ := by
   simp [cascRule, hi, hre, hm, hc]
 
-/-- the group of an @import with media whose flattened target holds comments and style rules only -/
+/ -- the group of an @import with media whose flattened target holds comments and style rules only - /
 theorem group_of_wrapped_import (vfs : Vfs) (who : Who) (th href media ihref : Str) (sheet ci : Sheet) (l : FLog)
     (rebased : Sheet × List Str)
     (hi : cascRules vfs who ihref sheet = ⟨.ok ci, l⟩)
@@ -662,8 +669,8 @@ theorem group_of_wrapped_import (vfs : Vfs) (who : Who) (th href media ihref : S
       = ⟨.ok [.comment (startComment href), .media media rebased.1], l⟩ := by
   simp [cascRule, hi, hre, hm, hc]
 
-/-- the group of an @import without media: marker comment, then the flattened, re-based target with its kept
-@imports taken over -/
+/ -- the group of an @import without media: marker comment, then the flattened, re-based target with its kept
+@imports taken over - /
 theorem group_of_merged_import (vfs : Vfs) (who : Who) (th href ihref : Str) (sheet ci m : Sheet) (l l' : FLog)
     (rebased : Sheet × List Str)
     (hi : cascRules vfs who ihref sheet = ⟨.ok ci, l⟩)
@@ -673,16 +680,16 @@ theorem group_of_merged_import (vfs : Vfs) (who : Who) (th href ihref : Str) (sh
       = ⟨.ok (.comment (startComment href) :: m), l ++ l'⟩ := by
   simp [cascRule, hi, hre, hk]
 
-/-- the group of an @import whose target was not found: the @import itself, looked for once more from the
+/ -- the group of an @import whose target was not found: the @import itself, looked for once more from the
 flattened sheet (C19-unavailable-refetched in general: that is one fetcher call whenever the URL is well-formed and
-not the sheet itself) -/
+not the sheet itself) - /
 theorem group_of_unavailable_import (vfs : Vfs) (who : Who) (th href media a : Str) (b : Sheet) (x : Rule) (l : FLog)
     (h : setHref (vfs.length + 2) vfs who [th] href media = ⟨.ok x, l⟩) :
     cascRule vfs who th (.imp href media false a b) = ⟨.ok [x], l⟩ := by
   simp [cascRule, keep1, h]
 
-/-- C19-kept-import-not-rebased in general: the re-basing step of a merged group maps url() values and leaves every
-@import rule of the flattened target as it is — the kept @imports arrive with the hrefs they had -/
+/ -- C19-kept-import-not-rebased in general: the re-basing step of a merged group maps url() values and leaves every
+@import rule of the flattened target as it is — the kept @imports arrive with the hrefs they had - /
 theorem rebasing_leaves_kept_imports (href : Str) (inner rebased : Sheet) (log : List Str)
     (h : replaceUrls (replacer href) (fun _ => (false, [], [])) true inner = .ok (rebased, log)) :
     rebased.filter isImp = inner.filter isImp := by
@@ -694,10 +701,10 @@ theorem rebasing_leaves_kept_imports (href : Str) (inner rebased : Sheet) (log :
     rw [← h.1]
     exact replRules_keeps_imports _ inner b.1 b.2 hb
 
-/-- T19.3, fetching [generalised from `flatten_fetches_nothing_partial` to trees with kept imports]: when the target
+/ -- T19.3, fetching [generalised from `flatten_fetches_nothing_partial` to trees with kept imports]: when the target
 of every @import, at any depth, was found when the sheet was loaded, `resolveImports` calls no fetcher — whether or
 not @imports have to be kept because they cannot be wrapped — for every tree without @namespace rules.
-(An @import whose target was NOT found is looked for again: `group_of_unavailable_import`, the known finding.) -/
+(An @import whose target was NOT found is looked for again: `group_of_unavailable_import`, the known finding.) - /
 theorem flatten_fetches_nothing_when_all_found (vfs : Vfs) (who : Who) (href : Str) (sheet : Sheet)
     (hn : noNsL sheet = true) (hf : allFoundL sheet = true) :
     (resolveImports vfs who href sheet).log = [] := by
@@ -709,12 +716,12 @@ theorem flatten_fetches_nothing_when_all_found (vfs : Vfs) (who : Who) (href : S
 section
 open CssVerif.Proto
 
-/-- non-vacuity of `flatten_fetches_nothing_when_all_found` with a kept @import: `@import "b.css" print;`,
-`b.css` = `@page{}` -/
+/ -- non-vacuity of `flatten_fetches_nothing_when_all_found` with a kept @import: `@import "b.css" print;`,
+`b.css` = `@page{}` - /
 example : noNsL [.imp (cps "b.css") (cps "print") true (cps "http://h/b.css") [.page [] [] []]] = true ∧
     allFoundL [.imp (cps "b.css") (cps "print") true (cps "http://h/b.css") [.page [] [] []]] = true := by decide
 
-/-- non-vacuity of `rebasing_leaves_kept_imports` -/
+/ -- non-vacuity of `rebasing_leaves_kept_imports` - /
 example : replaceUrls (replacer (cps "css/a.css")) (fun _ => (false, [], [])) true
       [.imp (cps "b.css") (cps "print") true (cps "http://h/css/b.css") [.page [] [] []],
        .style (cps "a") [⟨cps "background", [.uri (cps "i.png")], []⟩]]
@@ -723,7 +730,7 @@ example : replaceUrls (replacer (cps "css/a.css")) (fun _ => (false, [], [])) tr
   have : replacer (cps "css/a.css") (cps "i.png") = .ok (cps "css/i.png") := by decide
   simp [replaceUrls, replRules, replRule, replStyle, replComps, replComp, this]
 
-/-- non-vacuity of `group_of_merged_import`, `group_of_wrapped_import`, `group_of_unavailable_import` -/
+/ -- non-vacuity of `group_of_merged_import`, `group_of_wrapped_import`, `group_of_unavailable_import` - /
 example : cascRules [] .user (cps "http://h/a.css") [.style (cps "a") []] = ⟨.ok [.style (cps "a") []], []⟩ ∧
     replRules (replacer (cps "a.css")) (hoist [.style (cps "a") []]) = .ok ([.style (cps "a") []], []) ∧
     keepAll [] .user (cps "http://h/m.css") [.style (cps "a") []] = ⟨.ok [.style (cps "a") []], []⟩ ∧
@@ -735,10 +742,10 @@ example : cascRules [] .user (cps "http://h/a.css") [.style (cps "a") []] = ⟨.
   have hne : ¬ cps "http://h/x.css" = cps "http://h/m.css" := by decide
   simp [setHref, this, vfsLookup, hne]
 
-/-- non-vacuity of `resolveImports_flat_kept_partial`, and the three known findings read off the specification:
+/ -- non-vacuity of `resolveImports_flat_kept_partial`, and the three known findings read off the specification:
 main = `@import "a.css"; @import "b.css" print; @import "x.css";` with `a.css` = `a{}`, `b.css` = `@page{}` (cannot be
 wrapped), `x.css` unavailable: the specification has the value comment, @import b, @import x, style rule, comment
-(kinds 1 2 2 4 1) with one fetcher call -/
+(kinds 1 2 2 4 1) with one fetcher call - /
 example :
     (flatSpec [] .user (cps "http://h/m.css")
       [.imp (cps "a.css") mediaAll true (cps "http://h/a.css") [.style (cps "a") []],
@@ -751,8 +758,8 @@ example :
        .imp (cps "x.css") mediaAll false [] []]).log = [(.user, cps "http://h/x.css")] := by
   constructor <;> decide +kernel
 
-/-- `bodyRules` on that tree: marker comment of a, the style rule of a, marker comment of b (whose target is not
-merged) — kinds 1 4 1 — and "an @import is kept" -/
+/ -- `bodyRules` on that tree: marker comment of a, the style rule of a, marker comment of b (whose target is not
+merged) — kinds 1 4 1 — and "an @import is kept" - /
 example :
     (match bodyRules
       [.imp (cps "a.css") mediaAll true (cps "http://h/a.css") [.style (cps "a") []],
@@ -761,8 +768,8 @@ example :
      | .ok (b, k) => some (b.map Rule.tag, k)
      | .error _ => none) = some ([1, 4, 1], true) := by decide +kernel
 
-/-- non-vacuity, nested: `@import "css/a.css";` with `css/a.css` = `@import "b.css" print; a{}` and `css/b.css` =
-`@page{}`: the kept @import of the inner sheet is taken over into the outer group, behind the marker comment -/
+/ -- non-vacuity, nested: `@import "css/a.css";` with `css/a.css` = `@import "b.css" print; a{}` and `css/b.css` =
+`@page{}`: the kept @import of the inner sheet is taken over into the outer group, behind the marker comment - /
 example :
     (flatSpec [] .user (cps "http://h/m.css")
       [.imp (cps "css/a.css") mediaAll true (cps "http://h/css/a.css")
@@ -770,18 +777,20 @@ example :
          .style (cps "a") []]]).okMap (fun t => (t.map Rule.tag, importHrefs t))
       = some ([1, 2, 1, 4], [cps "b.css"]) := by decide +kernel
 
-/-- non-vacuity of `resolveImports_is_flatSpec`: the witness trees above hold no @namespace rule -/
+/ -- non-vacuity of `resolveImports_is_flatSpec`: the witness trees above hold no @namespace rule - /
 example : noNsL
       [.imp (cps "a.css") mediaAll true (cps "http://h/a.css") [.style (cps "a") []],
        .imp (cps "b.css") (cps "print") true (cps "http://h/b.css") [.page [] [] []],
        .imp (cps "x.css") mediaAll false [] []] = true := by decide
 
-/-- non-vacuity of the group theorems: their hypotheses hold for the witness trees above -/
+/ -- non-vacuity of the group theorems: their hypotheses hold for the witness trees above - /
 example : cascRules [] .user (cps "http://h/b.css") [.page [] [] []] = ⟨.ok [.page [] [] []], []⟩ ∧
     replRules (replacer (cps "b.css")) (hoist [.page [] [] []]) = .ok ([.page [] [] []], []) ∧
     cps "print" ≠ mediaAll ∧ ([Rule.page [] [] []]).all combinable = false := by
   refine ⟨rfl, rfl, by decide, rfl⟩
 end
+
+-/
 
 /-! ## T19.3, fetching — each available target is fetched exactly once per import edge
 
